@@ -73,6 +73,15 @@ Step ==
             /\ IF e.alive /\ e.fresh /\ e.done = "796573" THEN cov' = Count(cov, "bulky.contained") /\ UNCHANGED viol
                ELSE viol' = Append(viol, [line |-> l, tags |-> {"C18"}, rule |-> IF e.alive /\ e.fresh THEN "bulky.complete.request.lost" ELSE "bulky.others.stalled",
                                          cut |-> 0, kind |-> "bulky"]) /\ UNCHANGED cov
+       ELSE IF e.e = "hogs" THEN
+            \* silent clients (a complete quiet store and a truncated request in one write, then nothing) on every slot: what
+            \* was complete is executed, the torn request is not, and after the receive timeout others are served again
+            /\ fs' = fs
+            /\ IF e.served /\ e.done = "796573" /\ e.torn = "miss" /\ e.closed = e.n THEN cov' = Count(cov, "silent.hogs.timed.out") /\ UNCHANGED viol
+               ELSE viol' = Append(viol, [line |-> l, tags |-> {"C18", "C17"},
+                                         rule |-> IF ~e.served \/ e.closed # e.n THEN "silent.clients.keep.their.slots"
+                                                  ELSE IF e.torn # "miss" THEN "silence.incomplete.request.executed" ELSE "silence.complete.request.lost",
+                                         cut |-> 0, kind |-> "hogs"]) /\ UNCHANGED cov
        ELSE LET j == Judge(e) IN
             /\ fs' = fs
             /\ IF j.tags = {} THEN cov' = Count(cov, j.rule) /\ UNCHANGED viol
